@@ -1059,13 +1059,17 @@ def _seq_case(draw):
     npar = 2 * n
     ops = []
     for _ in range(draw(st.integers(1, 8))):
-        kind = draw(st.sampled_from(["derive", "derive", "assign", "assign", "assign", "alter"]))
+        kind = draw(st.sampled_from(["derive", "derive", "assign", "assign", "assign", "alter", "reorder", "sequentialize"]))
         t = draw(st.integers(0, 4))
         if kind == "derive":
             ops.append([draw(st.sampled_from(SEQ_DERIVE)), t])
         elif kind == "assign":
             which = draw(st.lists(st.integers(0, npar - 1), min_size=1, max_size=2, unique=True))
             ops.append(["assign", t, [[p, draw(coef)] for p in sorted(which)]])
+        elif kind == "reorder":
+            ops.append(["reorder", t, draw(st.permutations(list(range(n))))])
+        elif kind == "sequentialize":
+            ops.append(["sequentialize", t])
         else:
             ops.append(["alter", t, draw(st.integers(1, 3))])
     return {"eqs": eqs, "ops": ops, "order": draw(st.sampled_from(["dates_equations", "equations_dates"]))}
@@ -1097,13 +1101,19 @@ def _seq_walk(case):
     base = {}
     for i, e in enumerate(case["eqs"]):
         base[pn[2 * i]], base[pn[2 * i + 1]] = e["own"], e["exo"]
-    pool = [{"kind": "original", "origin": None, "params": dict(base), "nv": 1}]
+    pool = [{"kind": "original", "origin": None, "params": dict(base), "nv": 1, "struct": []}]
     steps = []
     for op in case["ops"]:
         if op[0] in SEQ_DERIVE:
             s = op[1] % len(pool)
             steps.append({"op": "derive", "kind": op[0], "src": s})
-            pool.append({"kind": op[0], "origin": s, "params": dict(pool[s]["params"]), "nv": pool[s]["nv"]})
+            pool.append({"kind": op[0], "origin": s, "params": dict(pool[s]["params"]), "nv": pool[s]["nv"],
+                         "struct": list(pool[s]["struct"])})
+        elif op[0] in ("reorder", "sequentialize"):
+            i = op[1] % len(pool)
+            what = ["reorder", list(op[2])] if op[0] == "reorder" else ["sequentialize"]
+            steps.append({"op": op[0], "obj": i, "what": what})
+            pool[i]["struct"].append(what)
         elif op[0] == "assign":
             i = op[1] % len(pool)
             vals = {pn[p % len(pn)]: v for p, v in op[2]}
@@ -1121,7 +1131,8 @@ def _classify_seq(case):
     labels = sorted({"derive_" + s["kind"] for s in steps if s["op"] == "derive"} | {"op_" + s["op"] for s in steps if s["op"] != "derive"})
     labels += sorted({f"variants_{o['nv']}" for o in pool})
     labels += sorted({"lhs_" + e["lhs"] for e in case["eqs"]})
-    nontrivial = any(o["origin"] is not None and o["params"] != pool[o["origin"]]["params"] for o in pool)
+    nontrivial = any(o["origin"] is not None and (o["params"] != pool[o["origin"]]["params"] or o["struct"] != pool[o["origin"]]["struct"])
+                     for o in pool)
     return nontrivial, labels
 
 
@@ -1170,19 +1181,26 @@ def _check_seq(case):
         base[pn[2 * i]], base[pn[2 * i + 1]] = e["own"], e["exo"]
     cache = {}
 
-    def reference(params):
-        key = tuple(sorted(params.items()))
+    def reference(params, struct):
+        """A fresh object from the source, the lineage's structural operations replayed on it (never derived, never shared)."""
+        key = (tuple(sorted(params.items())), json.dumps(struct))
         if key not in cache:
             f = ir.Sequential.from_string(src)
+            for what in struct:
+                if what[0] == "reorder":
+                    f.reorder_equations(list(what[1]))
+                else:
+                    f.sequentialize()
             f.assign(**params)
             out = f.simulate(db, span, execution_order=case["order"], when_simulates_nan="silent")
-            cache[key] = {v: np.asarray(out[v].get_data(span), dtype=float)[:, 0] for v in names}
+            cache[key] = ({v: np.asarray(out[v].get_data(span), dtype=float)[:, 0] for v in names},
+                          tuple(f.lhs_names), tuple(f.get_equations()))
         return cache[key]
 
     m = api("sequential:from_string", ir.Sequential.from_string, src)
     api("sequential:assign", lambda: m.assign(**base))
     real = [m]
-    state = [{"kind": "original", "params": dict(base), "nv": 1, "dead": False}]
+    state = [{"kind": "original", "params": dict(base), "nv": 1, "dead": False, "struct": []}]
 
     def compare_all(where):
         for i, s in enumerate(state):
@@ -1207,7 +1225,11 @@ def _check_seq(case):
                 col.fail(f"{tag}:simulate:raises:{type(exc).__name__}", f"{w}: {type(exc).__name__}: {exc}"[:1200])
                 s["dead"] = True
                 continue
-            ref = reference(s["params"])
+            ref, ref_lhs, ref_eqs = reference(s["params"], s["struct"])
+            lhs = api(f"{tag}:lhs_names", lambda: tuple(obj.lhs_names))
+            col.check(lhs == ref_lhs, f"{tag}:lhs_names", lambda: f"{w}: {lhs} vs {ref_lhs} after {s['struct']}")
+            eqs = api(f"{tag}:get_equations", lambda: tuple(obj.get_equations()))
+            col.check(eqs == ref_eqs, f"{tag}:equation_order", lambda: f"{w}: {eqs} vs {ref_eqs} after {s['struct']}")
             for v in names:
                 if not col.check(got[v].shape == (NPER, nv), f"{tag}:simulate_shape", lambda: f"{w}: {v} {got[v].shape}"):
                     break
@@ -1225,13 +1247,20 @@ def _check_seq(case):
             s = state[st_["src"]]
             new = None if s["dead"] else _seq_derive(col, st_["kind"], real[st_["src"]], "sequential")
             real.append(new)
-            state.append({"kind": st_["kind"], "params": dict(s["params"]), "nv": s["nv"], "dead": new is None})
+            state.append({"kind": st_["kind"], "params": dict(s["params"]), "nv": s["nv"], "dead": new is None,
+                          "struct": list(s["struct"])})
         else:
             s = state[st_["obj"]]
             if not s["dead"]:
                 if st_["op"] == "assign":
                     api(f"sequential:{s['kind']}:assign", lambda: real[st_["obj"]].assign(**st_["values"]))
                     s["params"].update(st_["values"])
+                elif st_["op"] == "reorder":
+                    api(f"sequential:{s['kind']}:reorder_equations", real[st_["obj"]].reorder_equations, list(st_["what"][1]))
+                    s["struct"].append(st_["what"])
+                elif st_["op"] == "sequentialize":
+                    api(f"sequential:{s['kind']}:sequentialize", real[st_["obj"]].sequentialize)
+                    s["struct"].append(st_["what"])
                 else:
                     api(f"sequential:{s['kind']}:alter_num_variants", real[st_["obj"]].alter_num_variants, st_["k"])
                     s["nv"] = st_["k"]
